@@ -3,6 +3,7 @@ package main
 import (
 	"encoding/hex"
 	"fmt"
+	"net/url"
 	"strings"
 )
 
@@ -102,6 +103,11 @@ func c03Gen(g *Gen) {
 		default:
 			tag, streams = c03Unexpected(x)
 		}
+		if r.Chance(35) {
+			// widened HTTP family: every route, authenticators installed, hostile headers
+			g.Case(x.wideLine())
+			continue
+		}
 		mut := "-"
 		if r.Chance(35) {
 			mut = c01GenMut(r)
@@ -174,4 +180,184 @@ func c03Gen(g *Gen) {
 		}
 		g.Case(line)
 	}
+}
+
+// ---------------------------------------------------------------- widened HTTP family (hx lines)
+
+var c03Cfgs = []string{"plain", "xfcc", "xfcc", "xfccv", "pem", "pemfp", "pemv", "bearer", "bearer", "proof", "chain", "chain"}
+
+// hostile and well-formed values per header
+var c03XfccVals = []string{
+	`Hash=abc;Subject="CN=alice"`, `By=spiffe://a;Hash=0123;Subject="CN=bob,O=x";URI=spiffe://b;DNS=a.example`,
+	`Hash=abc;Subject="CN=alice\`, `Subject="CN=al\"ice"`, `Subject="CN=alice`, `Subject="\`, `"`, `\`, `"\`, `""\`, `Hash=abc\`,
+	`Hash=abc;Subject="CN=a\\`, `Hash=%zz;Subject=%`, `;;;`, `,,,`, `=`, `==;=;`, `Hash=a,Hash=b,`, `,Hash=a`, `Hash`, `Subject=CN=x`,
+	`Subject="CN=x";Subject="CN=y"`, `URI="a,b;c";Hash="d"`, `Subject="CN=` + "\xff\xfe" + `"`, `Hash=a;Subject="CN=x",Hash=b;Subject="CN=y\`,
+	" ", "\t", `Subject="",`, `Subject="CN="`, `Subject=",CN=x"`,
+}
+var c03AuthVals = []string{"Bearer tok1", "Bearer tok2", "Bearer tok1", "Bearer", "Bearer ", "Bearer  tok1", "bearer tok1", "BEARER tok1",
+	"Bearer tok1 extra", "Bearer nope", "Basic dXNlcjpwYXNz", "Basic", "tok1", "Bearer \xff\xfe", "Bearer ", "Negotiate ", ",", "Bearer tok1,Bearer tok2"}
+var c03ProofVals = []string{"@PROOF", "@PROOF", "@PROOFREPLAY", "", "v1", "v1.k1", "v1.k1.0.n.sig", "v1.k1.2000000000.nonce.AAAA", "....", "v1.k9.2000000000.n.x",
+	"v2.k1.2000000000.n.AAAA", "v1.k1.99999999999999999999.n.AAAA", "v1.k1.-5.n.AAAA", "\xff", "v1.k1.2000000000." + "n" + ".%zz"}
+var c03PemVals = []string{"", "x", "%zz", "-----BEGIN%20CERTIFICATE-----%0AAAAA%0A-----END%20CERTIFICATE-----", "-----BEGIN CERTIFICATE-----", "%2D%2D", "%",
+	"-----BEGIN%20CERTIFICATE-----%0AMIIB%0A-----END%20CERTIFICATE-----%0A", "-----BEGIN%20PRIVATE%20KEY-----%0AAAAA%0A-----END%20PRIVATE%20KEY-----"}
+
+func (x *c02G) wideHeaders(cfg string) string {
+	r := x.g.Rng
+	var kv [][2]string
+	add := func(k, v string) { kv = append(kv, [2]string{k, v}) }
+	noise := func(vals []string) string {
+		if r.Chance(12) {
+			b := r.Bytes(r.Range(0, 40))
+			for i := range b {
+				// net/http itself answers 400 to control bytes in a header value and closes
+				// without reading the body: not the application's code
+				if (b[i] < 0x20 && b[i] != '\t') || b[i] == 0x7f {
+					b[i] = '"'
+				}
+			}
+			return string(b)
+		}
+		if r.Chance(5) {
+			return strings.Repeat(Pick(r, vals), r.Range(2, 300))
+		}
+		return Pick(r, vals)
+	}
+	ct := Pick(r, []string{c03Arrow, c03Arrow, c03Arrow, c03Arrow, "application/json", "", c03Arrow + ";x", "application/x-www-form-urlencoded"})
+	if ct != "" {
+		add("Content-Type", ct)
+	}
+	if cfg == "xfcc" || cfg == "xfccv" || cfg == "chain" || r.Chance(10) {
+		if r.Chance(90) {
+			add("X-Forwarded-Client-Cert", noise(c03XfccVals))
+		}
+		if r.Chance(5) {
+			add("X-Forwarded-Client-Cert", noise(c03XfccVals))
+		}
+	}
+	if cfg == "bearer" || cfg == "proof" || cfg == "chain" || r.Chance(10) {
+		if r.Chance(85) {
+			add("Authorization", noise(c03AuthVals))
+		}
+	}
+	if cfg == "proof" || r.Chance(8) {
+		if r.Chance(85) {
+			add("VGI-Proxy-Proof", noise(c03ProofVals))
+		}
+	}
+	if strings.HasPrefix(cfg, "pem") || cfg == "chain" || r.Chance(8) {
+		if r.Chance(85) {
+			add("X-SSL-Client-Cert", noise(c03PemVals))
+		}
+	}
+	for r.Chance(30) {
+		switch r.Intn(9) {
+		case 0:
+			add("X-Request-ID", Pick(r, []string{"", "r", strings.Repeat("x", 5000), "\xff\xfe", "a b", "a,b", "\"", "🙂"}))
+		case 1:
+			add("VGI-Session", Pick(r, []string{"", "AAAA", "not base64", strings.Repeat("A", 3000), "\xff"}))
+		case 2:
+			add("Accept-Encoding", Pick(r, []string{"zstd", "gzip;q=0", "*;q=x", ",,,", "zstd;q=1.5", "identity;q=0,*;q=0", "\xff"}))
+		case 3:
+			add("X-VGI-Accept-Encoding", Pick(r, []string{"zstd", "br", ";", "zstd;q="}))
+		case 4:
+			add("Content-Encoding", Pick(r, []string{"zstd", "gzip", "identity", "br", " ", "zstd,gzip"}))
+		case 5:
+			add("Cookie", Pick(r, []string{"_vgi_auth=x", "_vgi_auth=", "_vgi_oauth_session=AAAA.BBBB", "=;=;", "a", strings.Repeat("c=d; ", 400), "_vgi_auth=\"x"}))
+		case 6:
+			add("Origin", Pick(r, []string{"https://a.example", "null", "", "x", "https://cupola.query-farm.services"}))
+		case 7:
+			add("Traceparent", Pick(r, []string{"00-0af7651916cd43dd8448eb211c80319c-b7ad6b7169203331-01", "zz", "", strings.Repeat("0", 600)}))
+		default:
+			add("VGI-Session-Accept", Pick(r, []string{"1", "true", "", "x"}))
+		}
+	}
+	if len(kv) == 0 {
+		return "-"
+	}
+	var p []string
+	for _, e := range kv {
+		p = append(p, c02Hex(e[0])+"="+c02Hex(e[1]))
+	}
+	return strings.Join(p, ",")
+}
+
+func (x *c02G) wideLine() string {
+	r := x.g.Rng
+	cfg := Pick(r, c03Cfgs)
+	tag := "route"
+	verb := "POST"
+	target := ""
+	body := ""
+	countSch := "count:int64:0"
+	ptr := func() string {
+		var kv [][2]string
+		kv = append(kv, [2]string{"vgi_rpc.method", "__upload_url__"}, [2]string{"vgi_rpc.request_version", "1"})
+		if r.Chance(60) {
+			kv = append(kv, [2]string{Pick(r, []string{"vgi_rpc.location", "vgi_rpc.shm_offset"}), Pick(r, []string{"http://x/y", "0", ""})})
+		}
+		if r.Chance(15) {
+			kv = append(kv, [2]string{"vgi_rpc.log_level", "INFO"})
+		}
+		return c02MetaStr(kv)
+	}
+	switch k := r.Intn(20); {
+	case k < 5: // the upload-URL route: row counts 0/1/2, pointer keys, foreign / missing columns, garbage
+		target, tag = "/__upload_url__/init", "upload-url"
+		sch := Pick(r, []string{countSch, countSch, countSch, "count:int64:1", "count:utf8:0", "count:int32:0", "n:int64:0", "-", "count:int64:0,extra:int64:0", "x:int64:0,count:int64:0"})
+		rows := Pick(r, []int{0, 0, 0, 1, 1, 2, 5})
+		cells := Pick(r, []string{"1", "3", "0", "-1", "1000", "99999999"})
+		if rows == 0 || sch == "-" {
+			cells = "-"
+		} else if strings.Contains(sch, ",") {
+			cells += "," + cells
+		}
+		body = fmt.Sprintf("S %s B %d %s %s", sch, rows, cells, ptr())
+		if r.Chance(10) {
+			body = "S " + sch
+		}
+	case k < 7: // token introspection: JSON bodies
+		target, tag = "/__introspect_token__", "introspect"
+		js := Pick(r, []string{`{"token":"good-token"}`, `{"token":"x"}`, `{"token":""}`, `{}`, `{"token":5}`, `[`, ``, `{"token":"` + strings.Repeat("t", 9000) + `"}`, "\xff\xfe", `{"token":null}`, `nul`})
+		body = "x" + hex.EncodeToString([]byte(js))
+	case k < 8:
+		target, tag = "/__describe__", "describe"
+		body = x.reqStream(nil, Pick(r, []int{0, 1, 2}), nil, x.meta(Pick(r, []string{"__describe__", "u3"}), true))
+	case k < 9:
+		verb, target, tag = "DELETE", "/__session__", "sticky-delete"
+	case k < 11: // pages, health, OAuth routes
+		verb = Pick(r, []string{"GET", "GET", "GET", "HEAD", "OPTIONS", "POST"})
+		target = Pick(r, []string{"/health", "/", "/describe", "/.well-known/oauth-protected-resource", "/_oauth/callback", "/_oauth/callback?code=abc&state=xyz",
+			"/_oauth/callback?error=access_denied", "/_oauth/callback?code=%zz&state=%", "/_oauth/logout", "/_oauth/logout?_vgi_return_to=https://evil.example/", "/_oauth/token",
+			"/nope", "/describe?x=%zz", "/?_vgi_return_to=//evil", "/favicon.ico", "/health/", "//", "/a/b/c/d", "/%2e%2e/health", "/u3/init/extra"})
+		tag = "pages-oauth"
+		if verb == "POST" {
+			body = "x" + hex.EncodeToString([]byte(Pick(r, []string{"grant_type=authorization_code&code=x", "", "%zz=%", "a=b&a=c"})))
+		}
+	case k < 12: // odd verbs on RPC routes
+		verb = Pick(r, []string{"GET", "PUT", "PATCH", "DELETE", "OPTIONS", "HEAD", "TRACE", "FOO"})
+		target = Pick(r, []string{"/u3", "/p3/init", "/x3/exchange", "/__upload_url__/init", "/__introspect_token__", "/__session__"})
+		tag = "odd-verb"
+	default: // the RPC routes with hostile headers and the usual / unexpected bodies
+		var streams string
+		if r.Chance(60) {
+			tag, streams = c03StripOp(x.op())
+		} else {
+			tag, streams = c03Unexpected(x)
+		}
+		m := c03FirstMethod(streams)
+		if m == "" || r.Chance(10) {
+			m = Pick(r, []string{"u3", "p3", "x3", "n1", "nope"})
+		}
+		target = "/" + url.PathEscape(m) + Pick(r, []string{"", "", "/init", "/init", "/exchange"})
+		body = streams
+	}
+	mut := "-"
+	if body != "" && !strings.HasPrefix(body, "x") && r.Chance(25) {
+		mut = c01GenMut(r)
+	}
+	line := fmt.Sprintf("hx %s %s x%s %s %s %s body", cfg, verb, hex.EncodeToString([]byte(target)), x.wideHeaders(cfg), mut, tag)
+	if body != "" {
+		line += " " + body
+	}
+	return line
 }
